@@ -67,7 +67,7 @@ func rulePoll(c *Ctx) {
 		return
 	}
 	c.touch(loop)
-	jt, _ := p.SPkg("lua").Members["jumpTable"].(*ssa.Global)
+	jt := p.Global("lua", "jumpTable")
 	isDispatch := func(in ssa.Instruction) bool {
 		call, ok := in.(*ssa.Call)
 		if !ok || call.Call.IsInvoke() || call.Call.StaticCallee() != nil {
@@ -274,7 +274,7 @@ func ruleLoopSel(c *Ctx) {
 						if !((lx && bx == base && isNilC(b.Y)) || (ly && by == base && isNilC(b.X))) {
 							return false
 						}
-						return (b.Op == token.NEQ && cd.Sense) || (b.Op == token.EQL && !cd.Sense)
+						return (b.Op == token.NEQ && cd.Sense) || (neHolds(b, cd))
 					}, func(blk *ssa.BasicBlock) bool {
 						for _, ls := range loopStores {
 							if ls.Block() == blk {
@@ -573,7 +573,7 @@ func ruleThreadCtx(c *Ctx) {
 							l2 = l2 && o2 == owner
 							k1, c1 := constInt(b.X)
 							k2, c2 := constInt(b.Y)
-							if (l1 && c2 && k2 == 0 || l2 && c1 && k1 == 0) && ((b.Op == token.EQL && cd.Sense) || (b.Op == token.NEQ && !cd.Sense) || (b.Op == token.LEQ && cd.Sense && l1) || (b.Op == token.GTR && !cd.Sense && l1)) {
+							if (l1 && c2 && k2 == 0 || l2 && c1 && k1 == 0) && ((eqHolds(b, cd)) || (b.Op == token.NEQ && !cd.Sense) || (b.Op == token.LEQ && cd.Sense && l1) || (b.Op == token.GTR && !cd.Sense && l1)) {
 								zero = true
 							}
 						}
